@@ -164,6 +164,20 @@ CHECKS["C16"] = dict(
     technique="Coq proof (assoc-list round trip) + generated source facts by vm_compute + typed differential round-trip runs",
     design="4/C16")
 
+CHECKS["C18"] = dict(
+    text="Theorems about a Gallina model of the film-coefficient computation (polynomial properties by Horner, temperature "
+         "clipping, Reynolds and Prandtl numbers, laminar/turbulent selection, floor) with the Gnielinski expression as a "
+         "parameter: the clipped temperature lies in the window, is the identity inside and idempotent; the coefficient is "
+         "never below the positive floor; below the cut-off the Nusselt number is the laminar value, above it the "
+         "correlation of Re and Pr formed at the clipped temperature; Re is linear in velocity; if the correlation is "
+         "non-decreasing in Re the coefficient is non-decreasing in velocity in the turbulent regime.  Tied to "
+         "thermalfluid.py by evaluating all shipped variants and random polynomial fluids against the model and an "
+         "independent evaluation.",
+    note="partial: the Gnielinski formula (log, real powers) is validated against an independent float evaluation and its "
+         "monotonicity in Re on [2e3,1e7]x[0.1,1e3] on a 400x60 grid; neither is proved.  JAX polynomial evaluation trusted.",
+    technique="Coq proof (order lemmas over Q) + evaluation correspondence by vm_compute + dense sweeps",
+    design="4/C18")
+
 NOT_YET = {}
 
 def main():
